@@ -175,6 +175,33 @@ def check(ctx):
                     ctx.count("reference-variant")
                     if not ok:
                         ctx.fail("oracle", f"C11/oracle/reference-projector/order{order}", f"{name} order {order} cutoff={'yes' if near is not None else 'no'}: span of c_pt differs from the unit eigenspace of projector_permutation_lat_trans_O{order} ({msg})", replay=rep, has_input=True)
+    # ---------------- sum-rule batches that do not divide the number of atoms evenly (27 = 2 x 13 + 1, 19 = 2 x 9 + 1, ...): the compressed
+    # sum-rule projector of order 3 (fast and stable builders) must not depend on the number of batches
+    from gens import abelian_table as _abt2
+    from symfc.utils.permutation_tools_O3 import compr_permutation_lat_trans_O3 as _cpt3
+    import symfc.utils.matrix_tools_O3 as _mt3
+    for dims_ in ((3, 3, 3), (19,)) if ctx.quick else ((3, 3, 3), (19,), (5, 7), (37,)):
+        tpn = np.asarray(_abt2(dims_, 1, rng=rng), dtype="intc")
+        Nn = tpn.shape[1]
+        cpt_ = _cpt3(tpn)
+        for fname in ("compressed_projector_sum_rules_O3", "compressed_projector_sum_rules_O3_stable"):
+            fn_ = getattr(_mt3, fname)
+            P1_ = fn_(tpn, cpt_, n_batch=1).tocsr()
+            for k_ in (2, 4, 5) if ctx.quick else (2, 3, 4, 5, 7, 8):
+                if k_ >= Nn:
+                    continue
+                ctx.case({"table": f"abelian {dims_}", "N": int(Nn), "builder": fname, "n_batch": k_}, nontrivial=True)
+                ctx.count("sumrule-uneven-batches")
+                try:
+                    Pk_ = fn_(tpn, cpt_, n_batch=k_).tocsr()
+                    dd_ = abs(Pk_ - P1_)
+                    dev_ = float(dd_.max()) if dd_.nnz else 0.0
+                except (IndexError, ValueError) as ex_:
+                    ctx.fail("oracle", "C11/oracle/sumrule-uneven-batches", f"{fname}(n_batch={k_}) on a {Nn}-atom table raised {type(ex_).__name__}: {ex_} (n_batch=1 works)", replay={"tp": tpn.tolist(), "n_batch": k_, "builder": fname}, has_input=True)
+                    continue
+                if dev_ > 1e-9:
+                    ctx.fail("oracle", "C11/oracle/sumrule-uneven-batches", f"{fname} on a {Nn}-atom table (translations {dims_}): n_batch={k_} gives a projector that differs from n_batch=1 by {dev_:.2e}",
+                             replay={"tp": tpn.tolist(), "n_batch": k_, "builder": fname}, has_input=True)
     # ---------------- the complete reference projector of order 3 on a 90-atom table (beyond every internal size threshold of the
     # accumulation: > 2^24 stored entries), with and without log output, against c_pt c_pt^T (thorough tier, once per run)
     if not ctx.quick and not getattr(ctx, "_bigref_done", False):
